@@ -132,7 +132,7 @@ impl<'w> GenModel<'w> {
                     }
                     (Op::PeekN { .. }, Obs::Peek(k, v)) => m.last_peek = Some((k.clone(), v.clone())),
                     (Op::AdvanceToPeeked { .. }, Obs::Num(_)) => {}
-                    (Op::SetOffset { offset, .. }, _) => {
+                    (Op::SetOffset { offset, .. }, _) | (Op::WithOffsetMid { offset, .. }, _) => {
                         m.cursor = (*offset).min(len);
                         m.exhausted = false;
                         m.last_reset = Some(*offset);
@@ -211,5 +211,14 @@ pub fn gen_input_len(rng: &mut Rng, hi: usize) -> (usize, usize) {
         if rng.chance(1, 5) { (0, 1500) } else { (0, 300) }
     } else {
         (0, hi)
+    }
+}
+
+/// A reset operation: mostly `set_offset`, sometimes the consuming `with_offset` in place.
+pub fn gen_reset(rng: &mut Rng, it: usize, offset: usize) -> Op {
+    if rng.chance(1, 4) {
+        Op::WithOffsetMid { it, offset }
+    } else {
+        Op::SetOffset { it, offset }
     }
 }
